@@ -5,7 +5,7 @@
 From Coq Require Import ZArith List Bool Ring Field QArith Permutation.
 Require Import MV.Lib.Base MV.C18.Ops MV.C18.Gen MV.C18.Model.
 Require Import MV.C18.Proofs_Herm MV.C18.Proofs_Opt MV.C18.Proofs_Cstr MV.C18.Proofs_Index MV.C18.Proofs_Main MV.C18.Proofs_Range MV.C18.Proofs_Gauge
-  MV.C18.Proofs_Quantum MV.C18.Examples.
+  MV.C18.Proofs_Quantum MV.C18.Proofs_GaugeExt MV.C18.Examples.
 Open Scope Z_scope.
 
 (* FULL.  The connection Laplacians are Hermitian, L_ij = conj L_ji: on faces (Nabla^* D Nabla of laplacian_triangles) for
@@ -216,6 +216,17 @@ Theorem C18_index_sum :
 Proof. exact index_sum_all. Qed.
 Print Assumptions C18_index_sum.
 
+(* FULL.  Re-flagging on a mesh that already carries the singularity attribute (a field was computed and flagged before,
+   with any order / options) stores exactly the indices of the field asked for - on vertices for the face-based field, on
+   faces for the vertex-based one: nothing of the previous content survives (generated from the `.clear()` of both
+   flag_singularities), so C18_index_sum speaks about what is stored, whatever the history of the mesh object. *)
+Theorem C18_flag_history_independent :
+  forall (T : Type) (O : ops T) (defect rot : Z -> T),
+    (forall (old : Z -> T) (E : list edge) (v : Z), singul_stored O old defect E rot v = singul O defect E rot v) /\
+    (forall (old : T) (flag : bool) (val : T), vsingul_stored O old flag val = if flag then val else o0 O).
+Proof. exact flag_history_independent. Qed.
+Print Assumptions C18_flag_history_independent.
+
 (* REFUTED (known finding constraint/two-edges-power-4, DESIGN.md defect #35).  The general form of the constraint clause -
    "the stored value is u^order for the unit direction u of the feature edge in the basis of the face" - is false of the
    code for order <> 4: c = (3, 4), order 2 stores u^4 <> u^2 (and neither +-u is a square root of the stored value). *)
@@ -268,3 +279,48 @@ Theorem C18_gauge_operator_partial :
         (forall x y, s x = s y -> x = y) -> centry O (relabel T s M) (s i) (s j) = centry O M i j).
 Proof. exact gauge_all. Qed.
 Print Assumptions C18_gauge_operator_partial.
+
+(* PARTIAL, one step further than C18_index_quantum_partial: the closed-fan hypothesis is discharged by the cyclic order of
+   the faces around v (l lists, turning around v, the representation vector of each face and the rho of the edge leaving it),
+   and the matching rule is reduced to the root property of the branches that were picked: the k-th signed rotation is the
+   angle between a branch ub of the face after the edge and a branch ua of the face before it (ua^order = fa, ub^order = fb),
+   each measured against the edge (directions wa, wb in the two bases).  Still named: that property of the picked branches
+   (phase / roots / angle_diff are real-analysis functions), the holonomy, and e^{ix} = 1 -> x in 2 pi Z. *)
+Theorem C18_index_quantum_cyclic_partial :
+  forall (T : Type) (O : ops T),
+    ring_theory (o0 O) (o1 O) (oadd O) (omul O) (osub O) (oopp O) eq ->
+  forall cis : T -> cx T,
+    (forall x y, cis (oadd O x y) = cmul O (cis x) (cis y)) -> cis (o0 O) = c1 O ->
+  forall (order : nat) (defect : Z -> T) (E : list edge) (rot : Z -> T) (v : Z) (l : list (cx T * cx T)),
+    Forall2 (fun r (t : cx T * cx T * cx T) => let '(fa, fb, rho) := t in
+               exists ua ub wa wb, cpow O ua order = fa /\ cpow O ub order = fb /\
+                 rho = cpow O (cmul O wa (cconj O wb)) order /\
+                 cis r = cmul O (cmul O ub (cconj O wb)) (cconj O (cmul O ua (cconj O wa))))
+            (angle_terms O E rot v) (cyc_fan T l) ->
+    Forall (unitc T O) (map fst l) ->
+    cmul O (cpow O (cis (defect v)) order) (cprod T O (map snd l)) = c1 O ->
+    cpow O (cis (vertex_angle O defect E rot v)) order = c1 O.
+Proof. exact quantum_partial_cyclic. Qed.
+Print Assumptions C18_index_quantum_cyclic_partial.
+
+(* FULL for operator + partition + solve (the constraint initialisation is outside: known findings gauge/...).  One level
+   above C18_gauge_operator_partial: let L' = G L G^* (what rotating the bases does to the operator, g unit) and z_B' = G z_B.
+   Whatever ANY solver answers for the rotated system L'_II x = -L'_IB z_B', the raw field it yields, rotated back
+   (conj(g_j) z'_j), extends the original constraints and is harmonic for the original operator; and normalisation commutes
+   with the gauge (norm_elem (g z) = g norm_elem z).  The directions of the solved field measured against the mesh's own
+   edges therefore do not depend on the choice of bases - what vertex numbering and each face's starting vertex change. *)
+Theorem C18_gauge_harmonic_extension :
+  forall (T : Type) (O : ops T),
+    field_theory (o0 O) (o1 O) (oadd O) (omul O) (osub O) (oopp O) (odiv O) (oinv O) eq ->
+    (forall (solve : cmat T -> list Z -> (Z -> cx T) -> (Z -> cx T)) (rhs : cx T -> cx T) (L : cmat T) (var0 : Z -> cx T)
+            (free fixed : list Z) (g : Z -> cx T),
+        (forall w, rhs w = cneg O w) -> (forall t, unitc T O (g t)) -> partitioned T L free fixed ->
+        let L' := gauge_map T O g L in
+        let var0' := fun j => cmul O (g j) (var0 j) in
+        solves T O rhs L' var0' free fixed (solve L' free (opt_rhs_fn O rhs L' fixed var0')) ->
+        let zb := fun j => cmul O (cconj O (g j)) (opt_first O solve rhs L' var0' free fixed j) in
+        (forall j, memZ j free = false -> zb j = var0 j) /\
+        (forall i, memZ i free = true -> mrow_dot O L i zb = c0 O)) /\
+    (forall g z : cx T, unitc T O g -> norm_elem O (cmul O g z) = cmul O g (norm_elem O z)).
+Proof. exact gauge_extension_all. Qed.
+Print Assumptions C18_gauge_harmonic_extension.
